@@ -411,9 +411,21 @@ fn skip<'a>(
                 }
                 context.macros.macroses.borrow_mut().insert(name, items);
             } else {
+                // conditionals in body of skipped definition of macro belong to the macro
+                let mut in_macro = false;
                 while let Some((num, line)) = iter.next() {
                     if let Some(Ok(item)) = parse_line(line) {
                         if let Document::DirectiveLine(_, directive, _) = item {
+                            if directive == Directive::Macro {
+                                in_macro = true;
+                            } else if directive == Directive::EndM
+                                || directive == Directive::EndMacro
+                            {
+                                in_macro = false;
+                            }
+                            if in_macro {
+                                continue;
+                            }
                             if other == NextItem::EndIf || other == NextItem::EndIfBlock {
                                 if directive == Directive::If
                                     || directive == Directive::IfDef
